@@ -140,6 +140,140 @@ def mon_C02(ctx, ops, states):
     return bad
 
 
+
+def nb_looks_valid(st):
+    nb = pstate(st)['nb']
+    if nb is None:
+        return True
+    a = st['arts'].get(nb['num'])
+    return a is not None and a.startswith('F%d.' % nb['size'])
+
+
+def core(st):
+    return (st['pj'] if isinstance(st['pj'], dict) else 'x', tuple(sorted(st['arts'].items())))
+
+
+def genuine(ctx, o):
+    """the update offers a content of ctx with its genuine download and correct hash"""
+    p = o['resp']['patch']
+    if not p or not o['dl'].startswith('@dl'):
+        return None
+    name = o['dl'][3:]
+    pp = ctx.p.get(name) if hasattr(ctx, 'p') else None
+    if pp and pp['hash'] == p['hash'].lower():
+        return pp
+    return None
+
+
+# ------------------------------------------------------------------ C05 / C06
+def mon_C05(ctx, ops, states):
+    w = Walk(ctx, ops, states)
+    bad = []
+    for i, o, pre, st, cfg in w.steps():
+        if o['kind'] != 'update' or cfg is None:
+            continue
+        r = o['resp']
+        if st['out'] == '1':
+            p = r['patch'] if r else None
+            if not p or o['dl'] == 'err':
+                bad.append((i, 'C05: installed without an offered patch / download'))
+                continue
+            nb = pstate(st)['nb']
+            art = st['arts'].get(p['num'])
+            blob = w.tag2blob.get(art)
+            if nb is None or nb['num'] != p['num']:
+                bad.append((i, 'C05: installed %d but next boot patch is %s' % (p['num'], nb)))
+            elif blob is None:
+                bad.append((i, 'C05: installed artifact %s is not a file the test served' % art))
+            else:
+                try:
+                    want = bytes.fromhex(p['hash'])
+                except ValueError:
+                    want = None
+                if want != hashlib.sha256(blob).digest():
+                    bad.append((i, 'C05: installed although SHA-256 of the inflated file differs from the advertised hash'))
+                if nb['size'] != len(blob):
+                    bad.append((i, 'C05: recorded size differs from the verified file'))
+        else:
+            rb = r['rb'] if r else None
+            if not rb and nb_looks_valid(pre) and not state_reset(o, pre, cfg['rel']):
+                if core(st) != core(pre):
+                    bad.append((i, 'C05/C06: update returned %s but changed the patch state or artifacts' % st['out']))
+    return bad
+
+
+def mon_healthy(ctx, ops, states):
+    """C06/C09: a healthy offer of a fresh number installs"""
+    w = Walk(ctx, ops, states)
+    bad = []
+    for i, o, pre, st, cfg in w.steps():
+        if o['kind'] != 'update' or cfg is None or not o['resp'] or not o['resp']['avail']:
+            continue
+        g = genuine(ctx, o)
+        if g is None:
+            continue
+        p = o['resp']['patch']
+        ps = pstate(pre) if not state_reset(o, pre, cfg['rel']) else dict(lb=None, nb=None, cb=None, bad=[])
+        if p['num'] in ps['bad'] or p['num'] in (o['resp']['rb'] or []):
+            continue
+        if ps['nb'] and ps['nb']['num'] == p['num']:
+            continue
+        if st['out'] != '1':
+            bad.append((i, 'C06: healthy offer of fresh patch %d answered %s' % (p['num'], st['out'])))
+    return bad
+
+
+# ------------------------------------------------------------------ C08
+def mon_C08(ctx, ops, states):
+    w = Walk(ctx, ops, states)
+    bad = []
+    for i, o, pre, st, cfg in w.steps():
+        if o['kind'] == 'init' and st['out'] == 'true' and state_reset(o, pre, o['rel']):
+            ok = isinstance(st['pj'], dict) and st['pj'] == dict(lb=None, nb=None, cb=None, bad=[]) and \
+                not st['arts'] and isinstance(st['sj'], dict) and st['sj'] == dict(rel=o['rel'], evq=[])
+            if not ok:
+                bad.append((i, 'C08: state of another release survived the first init: %s' % st['raw'][:200]))
+        if cfg is not None and o['kind'] in ('nextnum', 'nextpath', 'curnum') and state_reset(o, pre, cfg['rel']):
+            if st['out'] not in ('0', 'null'):
+                bad.append((i, 'C08: query under a new release returned %s' % st['out']))
+    return bad
+
+
+# ------------------------------------------------------------------ C14 / C20
+def mon_C14(ctx, ops, states):
+    w = Walk(ctx, ops, states)
+    bad = []
+    for i, o, pre, st, cfg in w.steps():
+        if o['kind'] == 'init' and cfg is not None:
+            if st['out'] != 'false':
+                bad.append((i, 'C14: second init reported success'))
+            if (st['sj'], st['pj'], st['arts'], st['junk']) != (pre['sj'], pre['pj'], pre['arts'], pre['junk']):
+                bad.append((i, 'C14: second init changed the disk'))
+    return bad + mon_C20(ctx, ops, states)
+
+
+def mon_C20(ctx, ops, states):
+    w = Walk(ctx, ops, states)
+    bad = []
+    for i, o, pre, st, cfg in w.steps():
+        for n in st['net']:
+            if cfg is None:
+                bad.append((i, 'C20: network traffic without configuration: %s' % n))
+                continue
+            if n.startswith('C:'):
+                app, chan, rel = n[2:].split('.')[:3]
+                want_chan = o.get('ch') if o.get('ch') is not None else cfg['chan']
+                if 'BADPLAT' in n:
+                    bad.append((i, 'C20: wrong platform/arch in request %s' % n))
+                if (unhx(app), unhx(chan), unhx(rel)) != (cfg['app'], want_chan, cfg['rel']):
+                    bad.append((i, 'C20: request %s/%s/%s, expected %s/%s/%s' % (unhx(app), unhx(chan), unhx(rel), cfg['app'], want_chan, cfg['rel'])))
+            elif n.startswith('E:'):
+                f = n[2:].split('.')
+                if 'BADPLAT' in n or unhx(f[2]) != cfg['app'] or unhx(f[3]) != cfg['rel']:
+                    bad.append((i, 'C20: event %s does not carry the configured app id / release' % n))
+    return bad
+
+
 MONITORS = {
     'C01': mon_C01,
     'C02': mon_C02,
